@@ -79,14 +79,19 @@ class SpacingEx(PiecewiseMixin, ClassEx):
             top = None
             var = self.text(node.args[0])
             for c, f in zip(conds, funcs):
-                if not (isinstance(c, ast.Compare) and len(c.ops) == 1 and self.text(c.left) == var):
+                if not (isinstance(c, ast.Compare) and len(c.ops) == 1 and var in (self.text(c.left), self.text(c.comparators[0]))):
                     raise AlgError("piecewise condition not understood: " + self.text(c))
-                bound = self.expr(c.comparators[0], env)
-                if isinstance(c.ops[0], ast.Lt):
+                # `var < b` / `b > var` select the piece below b; `var > b` / `b < var` the piece above
+                var_left = self.text(c.left) == var
+                bound = self.expr(c.comparators[0] if var_left else c.left, env)
+                opk = type(c.ops[0])
+                if not var_left:
+                    opk = {ast.Lt: ast.Gt, ast.Gt: ast.Lt, ast.LtE: ast.GtE, ast.GtE: ast.LtE}.get(opk, opk)
+                if opk is ast.Lt:
                     if not (isinstance(bound, Rat) and bound.is_zero()):
                         raise AlgError("lower break point is not 0")
                     key = "below"
-                elif isinstance(c.ops[0], ast.Gt):
+                elif opk is ast.Gt:
                     key = "above"
                     top = bound
                 else:
